@@ -35,7 +35,7 @@ NOT_DECIDED = (
     "identity, the Trotter/Taylor order and every sign and constant inside shift_term, fb_term, h0_prop "
     "are numerical; no static claim is made for them."
 )
-TECHNIQUE = "static analysis: reaching-definition shape check of the importance factor, key def-before-use, typestate"
+TECHNIQUE = "static analysis: reaching-definition shape check of the importance factor, key def-before-use, typestate, axis-kind inference with a pairing count for the auxiliary-field index"
 
 
 def _exp_arg(t: T) -> Optional[T]:
